@@ -484,6 +484,13 @@ func (ef *Filter) filterTaggable(ctx context.Context, t Taggable, filterOverride
 	if err != nil {
 		return fmt.Errorf("%s: %w", op, err)
 	}
+	// a taggable map is filtered as a whole: whatever its tags leave alone is
+	// unclassified data, also when no tag addresses a value that exists.
+	if tv := reflect.ValueOf(t); tv.Kind() == reflect.Map && !tv.IsNil() {
+		if err := tm.trackMap(&tMap{value: tv, filteredFields: map[string]struct{}{}}); err != nil {
+			return fmt.Errorf("%s: unable to track taggable map: %w", op, err)
+		}
+	}
 	for _, pt := range tags {
 		value, err := pointerstructure.Get(t, pt.Pointer)
 		if err != nil {
